@@ -1,4 +1,5 @@
 import CEModel.Geometric
+import CEModel.GeomSpectral
 import CEModel.JsonIO
 /-! Driver handler for the geometric-kNN model (C12): the part of `geometric_knn_entropy` that the
 Lean theorems reason about — neighbour lists, the k-th neighbour distance, the centred
@@ -22,6 +23,21 @@ def hGeomParts (j : Json) : R Json := do
     Json.mkObj [("nbrs", listJ natJ nb),
       ("rho2", ratJ (Kde.sqdist (row X i) (row X (nb.getD (k - 1) 0)))),
       ("Y", matJ ratJ (centred envQ X i nb)), ("Z", matJ ratJ (offsets X i nb))])
+    (List.range X.length)
+
+/-- op `geom_spectral`: `{X, k}` ↦ per sample: the exact spectral invariants of the local
+configuration — `e_1 … e_d` of the Gram matrix of `Y_i` and `zᵀ G⁻¹ z` for every row `z` of `Z_i`
+(`null` when the Gram matrix is singular) -/
+def hGeomSpectral (j : Json) : R Json := do
+  let X ← jMat jRat (← jField j "X")
+  let k ← jNat (← jField j "k")
+  let d := (X.headD []).length
+  let keys := sqKeys X
+  return listJ (fun i =>
+    let nb := knnIdx (keys.getD i []) k
+    let G := gram (centred envQ X i nb) d
+    Json.mkObj [("e", listJ ratJ (charCoeffs G d)),
+      ("q", listJ (fun z => match quadForm G d z with | some q => ratJ q | none => Json.null) (offsets X i nb))])
     (List.range X.length)
 
 end CE.Geom
